@@ -64,8 +64,20 @@ def _eval_one_inproc(mod, c):
         raise core.Infra('worker failed:\n' + traceback.format_exc())
 
 
+def _hist(c) -> bool:
+    return isinstance(c, dict) and bool(c.get('_hist'))
+
+
+def _init_history():
+    from . import history
+    history.ensure()
+
+
 def _child(modname, cases, conn):
     try:
+        if cases and all(_hist(c) for c in cases):
+            # these cases are judged after a fixed history of legitimate calls (harness/history.py)
+            _init_history()
         conn.send(('ok', _worker((modname, cases))))
     except BaseException as e:  # noqa
         conn.send(('err', repr(e) + '\n' + traceback.format_exc()))
@@ -103,6 +115,28 @@ def evaluate_isolated(modname, cases):
 
 
 def evaluate_parallel(mod, cases, nproc=NPROC):
+    """cases marked `_hist` are evaluated in worker processes that first ran the history prelude, the others in
+    processes that did not (two pools): a result must not depend on what was called before"""
+    hi = [i for i, c in enumerate(cases) if _hist(c)]
+    if not hi or len(hi) == len(cases):
+        return _evaluate_group(mod, cases, nproc, bool(hi))
+    lo = [i for i, c in enumerate(cases) if not _hist(c)]
+    res = [None] * len(cases)
+    for ix, h in ((lo, False), (hi, True)):
+        for i, r in zip(ix, _evaluate_group(mod, [cases[i] for i in ix], nproc, h)):
+            res[i] = r
+    return res
+
+
+def mark_history(cases, every=3):
+    """every third case is judged after the history prelude"""
+    for i, c in enumerate(cases):
+        if isinstance(c, dict) and i % every == every - 1:
+            c['_hist'] = 1
+    return cases
+
+
+def _evaluate_group(mod, cases, nproc, hist):
     if not cases:
         return []
     n = max(1, min(nproc, (len(cases) + 7) // 8))
@@ -116,7 +150,7 @@ def evaluate_parallel(mod, cases, nproc=NPROC):
     ctx = mp.get_context('fork')
     outs = [None] * nch
     try:
-        with ProcessPoolExecutor(n, mp_context=ctx) as ex:
+        with ProcessPoolExecutor(n, mp_context=ctx, initializer=_init_history if hist else None) as ex:
             futs = [ex.submit(_worker, (mod.__name__, [cases[i] for i in ix])) for ix in idx]
             for k, f in enumerate(futs):
                 outs[k] = f.result()
@@ -197,6 +231,8 @@ def run_property(modname: str, tier: str, seed: int, replay: str | None = None) 
 
     rng = random.Random(seed * 1000003 + 17)
     cases = list(mod.cases(rng, tier))
+    if getattr(mod, 'HISTORY', True):
+        mark_history(cases)
     results = evaluate_parallel(mod, cases)
     # shared foundations this property's model rests on (e.g. the filter-iterator closed form F6):
     # their correspondence runs are part of the tie; a disagreement is a 'model' finding
@@ -218,6 +254,8 @@ def run_property(modname: str, tier: str, seed: int, replay: str | None = None) 
         core.log('obligation/correspondence broken: widening the search for a failing input')
         rng2 = random.Random(seed * 7919 + 5)
         extra = list(mod.cases(rng2, 'search'))
+        if getattr(mod, 'HISTORY', True):
+            mark_history(extra)
         r2 = evaluate_parallel(mod, extra)
         searched = len(extra)
         cases += extra
@@ -229,6 +267,8 @@ def run_property(modname: str, tier: str, seed: int, replay: str | None = None) 
     for case, res in zip(cases, results):
         for f in res['findings']:
             c = f.pop('case', None) or case
+            if _hist(case) and isinstance(c, dict):
+                c['_hist'] = 1
             if f['kind'] == 'property':
                 by_key.setdefault(f['key'], []).append((c, f))
             else:
